@@ -181,3 +181,74 @@ func checkStyleCacheReads(c *Ctx, p *Prog, rule string) {
 	c.Check(bad == "" && nWhole > 0, rule, "curstyle:read-whole-or-marked-component", "-",
 		fmt.Sprintf("%d whole-style comparisons, %d component reads; the forget-marker sets %v %s", nWhole, nReads, ms, bad))
 }
+
+// checkRememberedModes: the modes an application enabled are remembered in
+// fields of the screen so that Resume can re-apply them after Suspend.  The
+// tear-down emits the "off" sequences through the same helpers the togglers
+// use; if such a helper (or anything else reachable from Suspend/Resume/Fini)
+// also stored the field, suspending would wipe what Resume needs.  So: no store
+// to a remembered field in any function reachable, through static calls, from
+// the lifecycle roots.
+func checkRememberedModes(c *Ctx, p *Prog, rule, tname string, fields, roots []string) {
+	owner := "tcell." + tname
+	reach := map[*ssa.Function]string{}
+	var visit func(fn *ssa.Function, via string)
+	visit = func(fn *ssa.Function, via string) {
+		if fn == nil || fn.Pkg != p.Tcell {
+			return
+		}
+		if _, ok := reach[fn]; ok {
+			return
+		}
+		reach[fn] = via
+		for _, a := range fn.AnonFuncs {
+			visit(a, via)
+		}
+		eachInstr(fn, func(in ssa.Instruction) {
+			cc := callCommon(in)
+			if cc == nil {
+				return
+			}
+			if _, isGo := in.(*ssa.Go); isGo {
+				return
+			}
+			if callee := staticCallee(cc); callee != nil {
+				visit(callee, via)
+			}
+			if calleeName(cc) == "(*sync.Once).Do" && len(cc.Args) == 2 {
+				visit(boundTarget(cc.Args[1]), via)
+			}
+		})
+	}
+	nRoots := 0
+	for _, r := range roots {
+		if fn := p.Fn("tcell:(*" + tname + ")." + r); fn != nil {
+			nRoots++
+			visit(fn, r)
+		}
+	}
+	if nRoots == 0 {
+		c.Undecided(rule, tname+":lifecycle-roots", "-", "none of the lifecycle functions was found")
+		return
+	}
+	for _, f := range fields {
+		writers := []string{}
+		bad := ""
+		for _, fn := range p.modFns {
+			if fn.Pkg != p.Tcell {
+				continue
+			}
+			for _, st := range storesTo(fn, owner, f) {
+				writers = append(writers, fn.Name())
+				if via, ok := reach[fn]; ok {
+					bad += fmt.Sprintf("%s stores %s.%s at %s and is reachable from %s; ", fn.Name(), tname, f, p.pos(st.Pos()), via)
+				}
+			}
+		}
+		if len(writers) == 0 {
+			c.Undecided(rule, tname+"."+f+":remembered", "-", "no store to the field found")
+			continue
+		}
+		c.Check(bad == "", rule, tname+"."+f+":remembered", "-", fmt.Sprintf("stored by %v; none of them reachable from %v %s", writers, roots, bad))
+	}
+}
